@@ -53,7 +53,9 @@ SPEC = {
     'in_axes / out_axes prefix trees of depth one (one entry for all, or one per argument / result); pmap, shard_map, custom_vjp do not run in this sandbox',
   ],
   'model_partial': [
-    'grad_closure_is_loss_of_diff / grad_value_aux_effects_once: everything up to the call of jax.value_and_grad and after it is proved; that the returned numbers are the derivative is assumption A-AD (label: partial)',
+    'scan_eq_loop_nnx_partial: proved up to and including the loop (same n, same processing order in either direction, every ScanFn call on the Python loop\'s per-Variable values, carry threaded, broadcast constant, same final array carry, per-iteration records related); NOT proved: that scanWriteBack / scanCollectOut applied to the related records compute the per-Variable stack-by-index / final-carry / original-broadcast values of scanSpecN (positional popleft bookkeeping of _scan_merge_out) - tied by the correspondence run only',
+    'vmap_eq_per_index: soundness direction (whenever nnx.vmap returns, vmapSpecN over n = the common size of all mapped leaves returns the same); the converse (no spurious rejection of inputs on which the reference is defined) is not proved',
+    'grad_value_aux_effects_once / grad_depends_on_extension_only: everything up to the call of jax.value_and_grad and after it is proved; that the returned numbers are the derivative is assumption A-AD (label: partial); the identification of GradFn\'s merged input with "selected leaves from the argument, unselected closed over" is by definition of gradFn/gradMergeAll and checked by correspondence, not restated per Variable',
   ],
 }
 
@@ -1690,7 +1692,7 @@ def run(ctx):
   check_scan_setup(ctx, drv, rng, thorough)
 
   # traced: the three transforms
-  mult = 1 if not thorough else 14
+  mult = 1 if not thorough else 50
   vm = _gen_many(gen_vmap_case, rng, ['ok'] * (34 * mult) + list(VMAP_ERR_KINDS) * mult)
   sc = _gen_many(gen_scan_case, rng, ['ok'] * (34 * mult) + list(SCAN_ERR_KINDS) * mult + (['bcast_write'] * (2 * mult) if 'scan-broadcast-write-dropped' in known else []))
   gr = _gen_many(gen_grad_case, rng, ['ok'] * (40 * mult) + ['inconsistent', 'repeated'] * (3 * mult))
